@@ -487,7 +487,7 @@ theorem primOK_msgAddress : PrimOK .msgAddress := by
     rename_i a wc addr _
     simp only [Bool.and_eq_true, decide_eq_true_eq, beq_iff_eq] at hd
     obtain ⟨⟨⟨hda, hwlo⟩, hwhi⟩, hlen⟩ := hd
-    simp only [Prim.encMsgAddress, Builder.writeUint, Builder.writeInt, Builder.writeBytes] at he
+    simp only [Prim.encMsgAddress, Builder.writeUint, Builder.writeInt_wide _ _ 8 (by omega), Builder.writeBytes] at he
     obtain ⟨b1, hb1, he2⟩ := bind_ok_inv he
     obtain ⟨b2, hb2, he3⟩ := bind_ok_inv he2
     obtain ⟨b3, hb3, he4⟩ := bind_ok_inv he3
@@ -513,7 +513,7 @@ theorem primOK_msgAddress : PrimOK .msgAddress := by
     simp only [Bool.and_eq_true, decide_eq_true_eq, beq_iff_eq] at hd
     obtain ⟨⟨⟨⟨hda, hl⟩, hl511⟩, hwlo⟩, hwhi⟩ := hd
     subst hl
-    simp only [Prim.encMsgAddress, Builder.writeUint, Builder.writeInt, Int.toNat_natCast] at he
+    simp only [Prim.encMsgAddress, Builder.writeUint, Builder.writeInt_wide _ _ 32 (by omega), Int.toNat_natCast] at he
     obtain ⟨b1, hb1, he2⟩ := bind_ok_inv he
     obtain ⟨b2, hb2, he3⟩ := bind_ok_inv he2
     obtain ⟨b3, hb3, he4⟩ := bind_ok_inv he3
@@ -918,7 +918,7 @@ theorem primOK_addrWc : PrimOK .addrWc := by
   rename_i wc addr _
   simp only [Bool.and_eq_true, decide_eq_true_eq, beq_iff_eq] at hd
   obtain ⟨⟨hlo, hhi⟩, hlen⟩ := hd
-  simp only [Prim.enc, Builder.writeInt, Builder.writeBytes] at he
+  simp only [Prim.enc, Builder.writeInt_wide _ _ 32 (by omega), Builder.writeBytes] at he
   obtain ⟨b1, hb1, he2⟩ := bind_ok_inv he
   have e1 := Builder.writeBits_ok hb1
   have e2 := Builder.writeBits_ok he2
